@@ -10,6 +10,8 @@ def main():
     c = Check("C16")
     ok = c.proofs("Nq.Props.C16", drivers=["drv_c16", "drv_c03"])
     s = c.build_repo()
+    if s.ok:
+        c.simcheck(s, 400 if c.tier == "quick" else 4000)
     stats, samples, disagree, oracle, errors = {}, [], [], [], []
     neighbourhood = None
     if s.ok and c.driver_ok:
